@@ -27,6 +27,9 @@ def _scrub(text: str) -> str:
     """Messages are informational only; addresses in them must not make two logs differ."""
     import re
 
+    scratch = os.environ.get("DSIM_SCRATCH")
+    if scratch:
+        text = text.replace(scratch, "<scratch>")
     return re.sub(r"0x[0-9a-fA-F]+", "0x?", text)
 
 
